@@ -219,6 +219,34 @@ def step (_ : Unit) (line : String) : Unit × String :=
       (match pTx ws with
        | some (t, []) => toHex (marshalTx t) ++ " " ++ toHex (txGenHash t)
        | _ => "bad-op")
+    | "sm" :: n :: ws =>
+      (match pNat n with
+       | none => "bad-op"
+       | some k => match pTxs k ws with
+         | some (ts, []) => toHex (marshalTxs ts)
+         | _ => "bad-op")
+    | "bm" :: ws =>
+      (match (match ws with
+              | "nilhdr" :: rest => some (none, rest)
+              | _ => (pHeader ws).map (fun (h, r) => (some h, r))) with
+       | none => "bad-op"
+       | some (oh, n :: rest) =>
+         (match pNat n with
+          | none => "bad-op"
+          | some k => match pTxs k rest with
+            | some (ts, []) =>
+              if !(match oh with | some h => headerModelled h | none => true) then "unmodelled"
+              else (match marshalBlock ⟨oh, ts⟩ with
+                | .ok b => toHex b
+                | .err => "err"
+                | .nilObj => "nil"
+                | .panic _ => "panic")
+            | _ => "bad-op")
+       | _ => "bad-op")
+    | "gm" :: ws =>
+      (match pGroup ws with
+       | some (g, []) => toHex (marshalGroup g) ++ " " ++ toHex (groupHeaderGenHash g.header)
+       | _ => "bad-op")
     | ["jt", x] =>
       (match pTime x with
        | none => "bad-op"
@@ -256,34 +284,6 @@ def step (_ : Unit) (line : String) : Unit × String :=
            showOutcome (fun g => sGroup g ++ " " ++ toHex (groupHeaderGenHash g.header)) (unmarshalGroup bs)
          else if op == "jr" then sReqIds (decReqIds bs)
          else "bad-op")
-    | "sm" :: n :: ws =>
-      (match pNat n with
-       | none => "bad-op"
-       | some k => match pTxs k ws with
-         | some (ts, []) => toHex (marshalTxs ts)
-         | _ => "bad-op")
-    | "bm" :: ws =>
-      (match (match ws with
-              | "nilhdr" :: rest => some (none, rest)
-              | _ => (pHeader ws).map (fun (h, r) => (some h, r))) with
-       | none => "bad-op"
-       | some (oh, n :: rest) =>
-         (match pNat n with
-          | none => "bad-op"
-          | some k => match pTxs k rest with
-            | some (ts, []) =>
-              if !(match oh with | some h => headerModelled h | none => true) then "unmodelled"
-              else (match marshalBlock ⟨oh, ts⟩ with
-                | .ok b => toHex b
-                | .err => "err"
-                | .nilObj => "nil"
-                | .panic _ => "panic")
-            | _ => "bad-op")
-       | _ => "bad-op")
-    | "gm" :: ws =>
-      (match pGroup ws with
-       | some (g, []) => toHex (marshalGroup g) ++ " " ++ toHex (groupHeaderGenHash g.header)
-       | _ => "bad-op")
     | _ => "bad-op"
   ((), ans)
 
